@@ -98,7 +98,7 @@ func FinishVoid(fns ...func()) {
 // ForEach 加工所有生成的元素，但并不输出。
 func ForEach(generate GenerateFunc, mapper ForEachFunc, opts ...Option) {
 	options := buildOptions(opts...)
-	panicChan := &onceChan{channel: make(chan any)}
+	panicChan := newOnceChan()
 	source := buildSource(generate, panicChan)
 	collector := make(chan any)
 	done := make(chan lang.PlaceholderType)
@@ -121,6 +121,7 @@ func ForEach(generate GenerateFunc, mapper ForEachFunc, opts ...Option) {
 			panic(v)
 		case _, ok := <-collector:
 			if !ok {
+				panicChan.raise()
 				return
 			}
 		}
@@ -141,14 +142,14 @@ func MapReduceVoid(generate GenerateFunc, mapper MapperFunc, reducer VoidReducer
 
 // MapReduce 加工所有生成的元素，并聚合后输出。
 func MapReduce(generate GenerateFunc, mapper MapperFunc, reducer ReducerFunc, opts ...Option) (any, error) {
-	panicChan := &onceChan{channel: make(chan any)}
+	panicChan := newOnceChan()
 	source := buildSource(generate, panicChan)
 	return mapReduceWithPanicChan(source, panicChan, mapper, reducer, opts...)
 }
 
 // MapReduceChan 加工所有给定的源数据，并聚合输出。
 func MapReduceChan(source <-chan any, mapper MapperFunc, reducer ReducerFunc, opts ...Option) (any, error) {
-	panicChan := &onceChan{channel: make(chan any)}
+	panicChan := newOnceChan()
 	return mapReduceWithPanicChan(source, panicChan, mapper, reducer, opts...)
 }
 
@@ -181,6 +182,8 @@ func mapReduceWithPanicChan(source <-chan any, panicChan *onceChan, mapper Mappe
 		for range output {
 			panic("多次写入聚合器")
 		}
+		// output 已关闭：加工者与聚合者均已结束，迟到的 panic 在此抛出
+		panicChan.raise()
 	}()
 
 	// collector 用于采集加工的数据，并在聚合器中消费
@@ -340,6 +343,21 @@ func buildSource(generate GenerateFunc, panicChan *onceChan) chan any {
 	}()
 
 	return source
+}
+
+// newOnceChan 的通道带一个缓冲位：write 永不阻塞，
+// 即使调用方已经离开 select（已取消、已超时或已取得结果）。
+func newOnceChan() *onceChan {
+	return &onceChan{channel: make(chan any, 1)}
+}
+
+// raise 重新抛出已记录的 panic（如有）。
+func (c *onceChan) raise() {
+	select {
+	case v := <-c.channel:
+		panic(v)
+	default:
+	}
 }
 
 type onceChan struct {
